@@ -1,6 +1,381 @@
-//! C14 — not built yet.
-use mcx::{Ctx, Value};
-pub fn run(_ctx: &Ctx, _replay: Option<&Value>) -> i32 {
-    eprintln!("C14: check not built yet");
-    2
+//! C14 — execution is deterministic and step-through agrees with the trace.
+//!
+//! (D) determinism over the program families: two runs, tracing flag on/off, debug-mode assembly,
+//!     every decorator kind inserted at every instruction boundary => identical outputs and an
+//!     identical main trace (the expected-cycles hint is covered by C03);
+//! (S) the step iterator as a state machine: ALL sequences over {next, back} up to a length bound
+//!     on a fresh iterator each (its cursor is private, so states are histories); every VmState
+//!     returned for clock t must equal row t of the trace of the same execution: top 16, depth,
+//!     overflow part, fmp, ctx, op of row t-1, memory written before t; no panic; and after any
+//!     history the iterator can still be drained forward to the last clock;
+//! (K) `clk` pushes the clock value of its row.
+
+use crate::common::*;
+use crate::progs;
+use mcx::{json, Ctx, Value};
+use processor::{ExecutionOptions, VmState};
+use rayon::prelude::*;
+use std::collections::BTreeMap;
+use std::sync::Mutex;
+use vm_core::{Felt, StarkField};
+use winter_prover::Trace;
+
+const CLK: usize = 0;
+const FMP: usize = 1;
+const CTXC: usize = 2;
+const OPB: usize = 9;
+const S0: usize = 32;
+const B0: usize = 48;
+const CHIP: usize = 53;
+
+fn digest(t: &processor::ExecutionTrace) -> Vec<u64> {
+    let m = t.main_segment();
+    let n = m.num_rows();
+    let mut out = Vec::with_capacity(m.num_cols() * n);
+    for c in 0..m.num_cols() {
+        for r in 0..n - 1 {
+            out.push(m.get(c, r).as_int());
+        }
+    }
+    out
+}
+
+// ---- reference view of the trace -----------------------------------------------------------------
+
+struct Rows {
+    cycles: usize,
+    /// per row t: full stack (top 16 + overflow of the current context, top first)
+    stack: Vec<Vec<u64>>,
+    fmp: Vec<u64>,
+    ctx: Vec<u64>,
+    opcode: Vec<u8>,
+    /// per row t, memory of the row's context: address -> word, for accesses at clocks < t (zero words dropped)
+    mem: Vec<BTreeMap<u64, [u64; 4]>>,
+}
+
+fn rows_of(t: &processor::ExecutionTrace, inputs_top_first: &[u64]) -> Rows {
+    let m = t.main_segment();
+    let n = m.num_rows();
+    let cycles = t.trace_len_summary().main_trace_len();
+    let g = |c: usize, r: usize| m.get(c, r).as_int();
+    // overflow content per row, reconstructed from depth changes and s15 (docs/src/design/stack/main.md)
+    let mut ov: Vec<u64> = inputs_top_first.iter().skip(16).cloned().collect(); // top of the overflow first
+    let mut saved: Vec<Vec<u64>> = vec![];
+    let mut stack = vec![];
+    let (mut fmp, mut ctx, mut opcode) = (vec![], vec![], vec![]);
+    for r in 0..=cycles.min(n - 2) {
+        let mut s: Vec<u64> = (0..16).map(|i| g(S0 + i, r)).collect();
+        s.extend(ov.iter());
+        stack.push(s);
+        fmp.push(g(FMP, r));
+        ctx.push(g(CTXC, r));
+        let mut o = 0u8;
+        for b in 0..7 {
+            o |= ((g(OPB + b, r) & 1) as u8) << b;
+        }
+        opcode.push(o);
+        if r < cycles.min(n - 2) {
+            let (d, d2) = (g(B0, r), g(B0, r + 1));
+            if g(CTXC, r + 1) != g(CTXC, r) {
+                // context switch: the overflow of the old context is hidden / the saved one restored
+                if o == refvm::mast::opcode::CALL || o == refvm::mast::opcode::SYSCALL {
+                    saved.push(std::mem::take(&mut ov));
+                } else {
+                    ov = saved.pop().unwrap_or_default();
+                }
+            } else if d2 == d + 1 {
+                ov.insert(0, g(S0 + 15, r));
+            } else if d2 + 1 == d && d > 16 {
+                if !ov.is_empty() {
+                    ov.remove(0);
+                }
+            }
+        }
+    }
+    // memory from the memory chiplet rows: selectors s0 = 1, s1 = 1, s2 = 0
+    let mut accesses: Vec<(u64, u64, u64, [u64; 4])> = vec![]; // (ctx, addr, clk, value)
+    for r in 0..n - 1 {
+        if g(CHIP, r) == 1 && g(CHIP + 1, r) == 1 && g(CHIP + 2, r) == 0 {
+            accesses.push((g(CHIP + 5, r), g(CHIP + 6, r), g(CHIP + 7, r), [g(CHIP + 8, r), g(CHIP + 9, r), g(CHIP + 10, r), g(CHIP + 11, r)]));
+        }
+    }
+    accesses.sort_by_key(|a| a.2);
+    let mut mem = vec![];
+    for r in 0..stack.len() {
+        let mut mm: BTreeMap<u64, [u64; 4]> = BTreeMap::new();
+        for a in accesses.iter().filter(|a| a.0 == ctx[r] && a.2 < r as u64) {
+            mm.insert(a.1, a.3);
+        }
+        mm.retain(|_, w| *w != [0; 4]);
+        mem.push(mm);
+    }
+    Rows { cycles, stack, fmp, ctx, opcode, mem }
+}
+
+fn check_state(s: &VmState, rows: &Rows) -> Option<(String, String)> {
+    let t = s.clk as usize;
+    if t >= rows.stack.len() {
+        return Some(("state_beyond_last_clock".into(), format!("clk {t}, program has {} cycles", rows.cycles)));
+    }
+    let st: Vec<u64> = s.stack.iter().map(|x| x.as_int()).collect();
+    let want = &rows.stack[t];
+    if st.len() < 16 || st[..16] != want[..16] {
+        return Some(("top16_differs_from_trace".into(), format!("clk {t}: iterator {:?} trace {:?}", st, want)));
+    }
+    if st != *want {
+        // classify: is it the overflow content of the *next* row (taken after the operation), or
+        // the initial overflow missing?
+        let next = rows.stack.get(t + 1).map(|n| n[16..].to_vec());
+        let lag = next.as_ref().map(|n| st[16..] == n[..]).unwrap_or(false);
+        let initial_missing = st.len() == 16 && rows.stack[0].len() > 16 && want[16..] == rows.stack[0][16..];
+        let kind = if lag || initial_missing { "overflow_part_lags_by_one_operation" } else { "overflow_part_differs_from_trace" };
+        return Some((kind.into(), format!("clk {t}: iterator stack {:?} trace {:?}", st, want)));
+    }
+    if s.fmp.as_int() != rows.fmp[t] {
+        return Some(("fmp_differs_from_trace".into(), format!("clk {t}: {} vs {}", s.fmp.as_int(), rows.fmp[t])));
+    }
+    if u32::from(s.ctx) as u64 != rows.ctx[t] {
+        return Some(("ctx_differs_from_trace".into(), format!("clk {t}")));
+    }
+    match (s.op, t) {
+        (None, 0) => {}
+        (Some(op), t) if t > 0 && op.op_code() == rows.opcode[t - 1] => {}
+        (op, _) => return Some(("op_differs_from_trace".into(), format!("clk {t}: {op:?}"))),
+    }
+    let mem: BTreeMap<u64, [u64; 4]> =
+        s.memory.iter().map(|(a, w)| (*a, [w[0].as_int(), w[1].as_int(), w[2].as_int(), w[3].as_int()])).filter(|(_, w)| *w != [0; 4]).collect();
+    if mem != rows.mem[t] {
+        return Some(("memory_differs_from_trace".into(), format!("clk {t}: iterator {:?} trace {:?}", mem, rows.mem[t])));
+    }
+    None
+}
+
+struct StepProg {
+    name: &'static str,
+    src: &'static str,
+    stack: Vec<u64>,
+    max_len: usize,
+}
+
+fn step_programs(tier: mcx::Tier) -> Vec<StepProg> {
+    let deep: Vec<u64> = (1..=20).collect();
+    let l = tier.pick(10usize, 13usize);
+    vec![
+        StepProg { name: "tiny", src: "begin push.1 drop end", stack: vec![], max_len: 12 },
+        StepProg { name: "deep_inputs", src: "begin swap drop push.7 end", stack: deep.clone(), max_len: l },
+        StepProg { name: "cross_16", src: "begin push.1 push.2 push.3 drop drop drop drop drop end", stack: (1..=17).collect(), max_len: l },
+        StepProg { name: "call", src: "proc.f push.5 mem_store.3 mem_load.3 drop end begin push.9 mem_store.3 call.f mem_load.3 drop end", stack: deep.clone(), max_len: l },
+        StepProg { name: "locals", src: "proc.f.2 push.4 loc_store.1 loc_load.1 drop end begin exec.f push.1 drop end", stack: vec![3], max_len: l },
+        StepProg { name: "loop", src: "begin push.2 dup neq.0 while.true push.1 sub dup neq.0 end drop end", stack: vec![], max_len: l },
+    ]
+}
+
+fn run_history(program: &processor::Program, stack: &[u64], history: &[bool]) -> Result<(Vec<Option<VmState>>, Vec<u32>), String> {
+    // history: true = next, false = back; afterwards the iterator is drained with next()
+    mcx::guard::catch(|| {
+        let mut it = processor::execute_iter(program, stack_inputs(stack), host(&[]));
+        let mut out = vec![];
+        for &fwd in history {
+            let s = if fwd { it.next().and_then(|r| r.ok()) } else { it.back() };
+            out.push(s);
+        }
+        let mut drained = vec![];
+        for _ in 0..100_000 {
+            match it.next() {
+                Some(Ok(s)) => drained.push(s.clk),
+                _ => break,
+            }
+        }
+        (out, drained)
+    })
+}
+
+fn stepping(ctx: &Ctx, stats: &Mutex<BTreeMap<String, u64>>) {
+    for sp in step_programs(ctx.tier) {
+        let program = assembler().compile(sp.src).expect("stepping program");
+        let trace = exec_trace(&program, &sp.stack, processor::AdviceInputs::default(), ExecutionOptions::default()).unwrap().expect("stepping program executes");
+        let rows = rows_of(&trace, &sp.stack);
+        let total: u64 = (0..=sp.max_len).map(|l| 1u64 << l).sum();
+        let all: Vec<Vec<bool>> = (0..=sp.max_len).flat_map(|l| (0..(1u64 << l)).map(move |bits| (0..l).map(|i| (bits >> i) & 1 == 1).collect())).collect();
+        assert_eq!(all.len() as u64, total);
+        all.par_iter().for_each(|h| {
+            let hs: String = h.iter().map(|b| if *b { 'n' } else { 'b' }).collect();
+            let case = json!({"kind": "step", "program": sp.name, "src": sp.src, "stack": sp.stack, "history": hs});
+            match run_history(&program, &sp.stack, h) {
+                Err(p) => ctx.fail(json!({"kind": "step_iterator_panic", "panic": mcx::guard::short_panic(&p)}), format!("{} history {hs}", sp.name), case),
+                Ok((states, drained)) => {
+                    for (i, s) in states.iter().enumerate() {
+                        if let Some(s) = s {
+                            if let Some((kind, detail)) = check_state(s, &rows) {
+                                ctx.fail(json!({"kind": kind, "direction": if h[i] { "next" } else { "back" }}), format!("{} history {hs} step {i}: {detail}", sp.name), case.clone());
+                                break;
+                            }
+                        }
+                    }
+                    // after any history the iterator can still be drained forward to the last clock
+                    if drained.last().map(|c| *c as usize) != Some(rows.cycles) && !(drained.is_empty() && states.iter().flatten().any(|s| s.clk as usize == rows.cycles) && h.last() == Some(&true)) {
+                        ctx.fail(json!({"kind": "iterator_cannot_be_drained_to_the_last_clock"}), format!("{} history {hs}: draining returned clocks {:?}, last clock is {}", sp.name, drained.iter().rev().take(3).collect::<Vec<_>>(), rows.cycles), case);
+                    }
+                }
+            }
+        });
+        let mut s = stats.lock().unwrap();
+        *s.entry("step_histories".into()).or_insert(0) += total;
+        *s.entry("step_transitions".into()).or_insert(0) += all.iter().map(|h| h.len() as u64).sum::<u64>();
+    }
+    // a failing program: the iterator yields the error after the states, never panics
+    let failing = assembler().compile("begin push.1 push.2 add push.0 assert end").unwrap();
+    for l in 0..=8usize {
+        for bits in 0..(1u64 << l) {
+            let h: Vec<bool> = (0..l).map(|i| (bits >> i) & 1 == 1).collect();
+            if let Err(p) = run_history(&failing, &[], &h) {
+                ctx.fail(json!({"kind": "step_iterator_panic", "panic": mcx::guard::short_panic(&p)}), format!("failing program, history {h:?}"), json!({"kind": "step_failing", "history": format!("{h:?}")}));
+            }
+        }
+    }
+}
+
+// ---- (D) determinism -----------------------------------------------------------------------------
+
+fn determinism(ctx: &Ctx, case: &progs::ProgCase, stats: &Mutex<BTreeMap<String, u64>>) {
+    let cj = json!({"kind": "det", "name": case.name, "src": case.src, "kernel": case.kernel, "stack": case.stack, "advice": case.advice, "merkle": !case.merkle_leaves.is_empty()});
+    let run = |asm: &assembly::Assembler, src: &str, opts: ExecutionOptions| -> Option<(Vec<u64>, Vec<u64>, usize)> {
+        let p = mcx::guard::catch(|| asm.compile(src)).ok()?.ok()?;
+        let t = exec_trace(&p, &case.stack, case.advice_inputs(), opts).ok()?.ok()?;
+        Some((t.stack_outputs().stack().to_vec(), digest(&t), t.trace_len_summary().main_trace_len()))
+    };
+    let asm = case.assembler();
+    let Some(base) = run(&asm, &case.src, ExecutionOptions::default()) else {
+        ctx.fail(json!({"kind": "family_program_does_not_run"}), case.name.clone(), cj);
+        return;
+    };
+    let mut n = 0u64;
+    let mut expect_same = |what: &str, r: Option<(Vec<u64>, Vec<u64>, usize)>| {
+        n += 1;
+        match r {
+            Some(r) if r == base => {}
+            Some(r) => {
+                let which = if r.0 != base.0 { "outputs" } else if r.2 != base.2 { "cycle_count" } else { "trace" };
+                ctx.fail(json!({"kind": "not_deterministic", "under": what.split(':').next().unwrap(), "differs": which}), format!("{}: {what}", case.name), cj.clone())
+            }
+            None => ctx.fail(json!({"kind": "variant_does_not_run", "under": what.split(':').next().unwrap()}), format!("{}: {what}", case.name), cj.clone()),
+        }
+    };
+    expect_same("second_run", run(&asm, &case.src, ExecutionOptions::default()));
+    expect_same("tracing_enabled", run(&asm, &case.src, ExecutionOptions::default().with_tracing()));
+    let dbg = case.assembler().with_debug_mode(true);
+    expect_same("debug_mode_assembly", run(&dbg, &case.src, ExecutionOptions::default()));
+    expect_same("debug_mode_assembly+tracing", run(&dbg, &case.src, ExecutionOptions::default().with_tracing()));
+    // decorators at every instruction boundary (not creating decorator-only span segments: F-C08-a)
+    if case.name.contains("/Top/") || case.name.contains("/Call/") || case.name.contains("/While2/") {
+        let toks: Vec<&str> = case.src.split_whitespace().collect();
+        for deco in ["emit.7", "trace.3", "debug.stack"] {
+            for i in 0..toks.len() {
+                let t = toks[i];
+                let structural = ["begin", "end", "else", "if.true", "while.true"].contains(&t) || t.starts_with("proc.") || t.starts_with("repeat.") || t.starts_with("exec.") || t.starts_with("call.") || t.starts_with("syscall.");
+                let next_structural = toks.get(i + 1).map(|t| ["end", "else", "if.true", "while.true"].contains(t) || t.starts_with("repeat.") || t.starts_with("exec.") || t.starts_with("call.")).unwrap_or(true);
+                if structural || next_structural {
+                    continue;
+                }
+                let mut v: Vec<String> = toks.iter().map(|s| s.to_string()).collect();
+                v.insert(i + 1, deco.to_string());
+                let a = if deco.starts_with("debug") { &dbg } else { &asm };
+                expect_same(&format!("decorator:{deco} after token {i}"), run(a, &v.join(" "), ExecutionOptions::default().with_tracing()));
+            }
+        }
+    }
+    *stats.lock().unwrap().entry("determinism_comparisons".into()).or_insert(0) += n;
+}
+
+/// (K) the clk instruction pushes the clock value of its own row
+fn clk_family(ctx: &Ctx) -> u64 {
+    let mut n = 0;
+    for src in ["begin clk end", "begin push.1 drop clk swap drop end", "proc.f clk drop end begin repeat.5 push.1 drop end call.f end", "begin push.1 if.true clk else push.2 end end", "begin repeat.70 swap end clk end"] {
+        let p = assembler().compile(src).unwrap();
+        let t = exec_trace(&p, &[], processor::AdviceInputs::default(), ExecutionOptions::default()).unwrap().unwrap();
+        let m = t.main_segment();
+        let cycles = t.trace_len_summary().main_trace_len();
+        for r in 0..cycles {
+            let mut o = 0u8;
+            for b in 0..7 {
+                o |= ((m.get(OPB + b, r).as_int() & 1) as u8) << b;
+            }
+            if o == vm_core::Operation::Clk.op_code() {
+                n += 1;
+                if m.get(S0, r + 1).as_int() != m.get(CLK, r).as_int() || m.get(CLK, r).as_int() != r as u64 {
+                    ctx.fail(json!({"kind": "clk_pushes_wrong_value"}), format!("{src}: row {r} pushes {}", m.get(S0, r + 1).as_int()), json!({"kind": "clk", "src": src}));
+                }
+            }
+        }
+    }
+    n
+}
+
+pub fn run(ctx: &Ctx, replay: Option<&Value>) -> i32 {
+    let stats: Mutex<BTreeMap<String, u64>> = Mutex::new(BTreeMap::new());
+    if let Some(case) = replay {
+        match case["kind"].as_str().unwrap_or("") {
+            "step" => {
+                let src = case["src"].as_str().unwrap();
+                let stack: Vec<u64> = case["stack"].as_array().unwrap().iter().map(|x| x.as_u64().unwrap()).collect();
+                let h: Vec<bool> = case["history"].as_str().unwrap().chars().map(|c| c == 'n').collect();
+                let program = assembler().compile(src).unwrap();
+                let trace = exec_trace(&program, &stack, processor::AdviceInputs::default(), ExecutionOptions::default()).unwrap().unwrap();
+                let rows = rows_of(&trace, &stack);
+                println!("program: {src}\ninputs (top first): {stack:?}\nhistory (n = next, b = back): {}", case["history"]);
+                match run_history(&program, &stack, &h) {
+                    Err(p) => {
+                        println!("PANIC: {p}");
+                        ctx.fail(json!({"kind": "step_iterator_panic", "panic": mcx::guard::short_panic(&p)}), "replay".to_string(), case.clone());
+                    }
+                    Ok((states, drained)) => {
+                        for (i, s) in states.iter().enumerate() {
+                            match s {
+                                Some(s) => {
+                                    println!("step {i} ({}): clk={} stack={:?}", if h[i] { "next" } else { "back" }, s.clk, s.stack.iter().map(|x| x.as_int()).collect::<Vec<_>>());
+                                    println!("   trace row {}: stack={:?}", s.clk, rows.stack.get(s.clk as usize));
+                                    if let Some((kind, detail)) = check_state(s, &rows) {
+                                        ctx.fail(json!({"kind": kind, "direction": if h[i] { "next" } else { "back" }}), detail, case.clone());
+                                    }
+                                }
+                                None => println!("step {i}: None"),
+                            }
+                        }
+                        println!("draining with next() afterwards returns clocks {drained:?}; last clock is {}", rows.cycles);
+                        if drained.last().map(|c| *c as usize) != Some(rows.cycles) && !(drained.is_empty() && h.last() == Some(&true)) {
+                            ctx.fail(json!({"kind": "iterator_cannot_be_drained_to_the_last_clock"}), format!("{drained:?}"), case.clone());
+                        }
+                    }
+                }
+            }
+            _ => println!("determinism / clk cases: re-run ./check C14 quick ({case})"),
+        }
+        return ctx.finish("model_checking", json!({}), &[]);
+    }
+    stepping(ctx, &stats);
+    let fam = progs::p1(false);
+    let take = ctx.tier.pick(fam.len() / 2, fam.len());
+    fam.par_iter().step_by(if take == fam.len() { 1 } else { 2 }).for_each(|c| determinism(ctx, c, &stats));
+    let clk_rows = clk_family(ctx);
+    ctx.sample(json!({"kind": "step", "program": "cross_16", "history": "nnnbbnbn"}));
+    ctx.sample(json!({"kind": "det", "name": fam[3].name, "variants": ["second_run", "tracing_enabled", "debug_mode_assembly", "decorator:emit.7 after each token"]}));
+    let s = stats.into_inner().unwrap();
+    let g = |k: &str| *s.get(k).unwrap_or(&0);
+    let cov = json!({
+        "states": g("step_histories"),
+        "transitions": g("step_transitions"),
+        "traces_validated_against_impl": g("step_histories"),
+        "stepping_programs": step_programs(ctx.tier).iter().map(|p| json!({"name": p.name, "max_history_length": p.max_len})).collect::<Vec<_>>(),
+        "determinism_programs": take,
+        "determinism_comparisons": g("determinism_comparisons"),
+        "clk_rows_checked": clk_rows,
+        "evaluations": g("step_histories") + g("determinism_comparisons"),
+        "exhaustive": true,
+        "bounds": "all {next, back} histories up to the stated length on 6 programs (+ a failing program to length 8); determinism variants over family P1",
+    });
+    ctx.finish("model_checking", cov, &[
+        "state of the stepping machine = action history (the iterator's cursor is private and cannot be canonicalised); every history runs on a fresh iterator over a fresh execution",
+        "the trace-side view (overflow content per row, memory per context per clock) is reconstructed from the main trace columns by the harness",
+        "independence of the expected-cycles hint is checked by C03; hash invariance under decorators by C08",
+    ])
 }
